@@ -10,6 +10,7 @@ import GA.Drv.SerdeE
 import GA.Drv.CmpE
 import GA.Drv.FillE
 import GA.Drv.ArrE
+import GA.Drv.ConstE
 open GA.Drv
 
 def answerLine (line : String) : String :=
@@ -32,6 +33,7 @@ def answerLine (line : String) : String :=
       | "fill" => FillE.answer kv
       | "arrmac" => ArrE.answer kv
       | "arrconst" => ArrE.answer kv
+      | "constapi" => ConstE.answer kv
       | _ => "bad-engine"
     s!"{seq} {body}"
   | _ => "bad-line"
